@@ -12,15 +12,15 @@
 (* the recorder in the unit the event kind prescribes.                     *)
 (***************************************************************************)
 EXTENDS Integers, Sequences, TLC, Json, IOUtils
-VARIABLES n, dim, nxt, zones, l
-vars == <<n, dim, nxt, zones, l>>
+VARIABLES n, dim, nxt, zones, rev, l
+vars == <<n, dim, nxt, zones, rev, l>>
 Log == ndJsonDeserialize(IOEnv.TRACE)
-Init == n = 1 /\ dim = 0 /\ nxt = 1 /\ zones = 0 /\ l = 1
+Init == n = 1 /\ dim = 0 /\ nxt = 1 /\ zones = 0 /\ rev = 0 /\ l = 1
 Ev(e) == l <= Len(Log) /\ Log[l].e = e /\ l' = l + 1
-Complete == nxt = n /\ (dim = 1 => zones = 2)          \* all intervals / cells (and both zones) of the current table seen
+Complete == nxt = n /\ (dim = 1 => zones = 2 /\ rev = 1)          \* all intervals / cells (both zones and the revisit) of the current table seen
 
 TReset == /\ Ev("Reset") /\ Complete
-          /\ n' = Log[l].N /\ dim' = Log[l].dim /\ nxt' = 1 /\ zones' = 0
+          /\ n' = Log[l].N /\ dim' = Log[l].dim /\ nxt' = 1 /\ zones' = 0 /\ rev' = 0
 TInterval == /\ Ev("Interval") /\ dim = 1
              /\ LET ev == Log[l] IN
                 /\ ev.i = nxt /\ ev.i < n
@@ -30,16 +30,20 @@ TInterval == /\ Ev("Interval") /\ dim = 1
                 /\ ev.kl = 0 /\ ev.kr <= 1     \* tabulated value at both abscissae
                 /\ ev.c1q <= 1                 \* first derivative continuous across the abscissa
                 /\ ev.dq0 = 0 /\ ev.dq1 <= 1 /\ ev.dq2 <= 1 /\ ev.dq3 <= 1   \* Derivative(x,k) = k-th derivative of the curve
-             /\ nxt' = nxt + 1 /\ UNCHANGED <<n, dim, zones>>
+             /\ nxt' = nxt + 1 /\ UNCHANGED <<n, dim, zones, rev>>
 TZone == /\ Ev("Zone") /\ dim = 1 /\ nxt = n
          /\ Log[l].end = zones /\ Log[l].q <= 1
-         /\ zones' = zones + 1 /\ UNCHANGED <<n, dim, nxt>>
+         /\ zones' = zones + 1 /\ UNCHANGED <<n, dim, nxt, rev>>
+\* the curve does not depend on the order of the queries: every revisited point gives the bits of the sequential pass
+TRevisit == /\ Ev("Revisit") /\ dim = 1 /\ zones = 2 /\ rev = 0
+            /\ Log[l].nq > 0 /\ Log[l].ndiff = 0 /\ Log[l].nbad = 0
+            /\ rev' = 1 /\ UNCHANGED <<n, dim, nxt, zones>>
 TCell == /\ Ev("Cell") /\ dim = 2
          /\ LET ev == Log[l] IN
             /\ ev.i = nxt /\ ev.i < n
             /\ ev.nout = 0 /\ ev.nodeq <= 1 /\ ev.edgeq <= 1 /\ ev.bilq <= 1
-         /\ nxt' = nxt + 1 /\ UNCHANGED <<n, dim, zones>>
-Next == TReset \/ TInterval \/ TZone \/ TCell
+         /\ nxt' = nxt + 1 /\ UNCHANGED <<n, dim, zones, rev>>
+Next == TReset \/ TInterval \/ TZone \/ TRevisit \/ TCell
 Spec == Init /\ [][Next]_vars
 TraceAccepted == TLCGet("stats").diameter - 1 = Len(Log)
 =============================================================================
